@@ -53,8 +53,8 @@ func (s *State) addCand(t string) {
 		}
 	}
 	s.cands = append(s.cands, t)
-	if len(s.cands) > 20 {
-		s.cands = s.cands[len(s.cands)-20:] // keep the most recent index terms
+	if len(s.cands) > 32 {
+		s.cands = s.cands[len(s.cands)-32:] // keep the most recent index terms
 	}
 }
 
